@@ -9,7 +9,7 @@ IMPL_RACE = os.path.join(common.HARNESS, "bin", "impl_race")
 
 def build_race():
     with common.Lock("gobuild"):
-        rc, out = common.sh(["go", "build", "-race", "-o", "bin/impl_race", "./cmd/impl"], cwd=common.HARNESS, env=common.GOENV, timeout=900)
+        rc, out = common.sh(["go", "build", "-race"] + common.COVFLAGS + ["-o", "bin/impl_race", "./cmd/impl"], cwd=common.HARNESS, env=common.GOENV, timeout=900)
     return rc == 0, out
 
 
